@@ -3,9 +3,9 @@
 package props
 
 import (
-	"strconv"
 	"fmt"
 	"math/rand/v2"
+	"strconv"
 	"strings"
 	"sync"
 
